@@ -49,6 +49,7 @@ void run_real_io(const vo::Registry& reg) {
             if (reg.verbosity == 1) args.push_back("-v");
             if (reg.verbosity == 2) args.push_back("-vv");
             if (reg.separate) args.push_back("-p");
+            if (reg.repeat > 1) args.push_back(std::string("-r") + (char) ('0' + reg.repeat));
             if (reg.has_filter) {
                 args.push_back(reg.strict ? (reg.invert ? "-xsn" : "-sn") : (reg.invert ? "-xn" : "-n"));
                 args.push_back(reg.filter);
